@@ -1375,4 +1375,567 @@ Section Pop.
           [left; reflexivity|reflexivity|reflexivity|intros x []|reflexivity|intros d E; discriminate|reflexivity].
       + apply (PL_node g _ a1 a3 _ tr t); pln V3 Hst0 L.
   Qed.
+
+  (** *** pop *)
+  Definition Qtpop : option item -> (tv * tv2) * pv -> Prop := fun r l' => l' = PV (mkTv false r None None true false) Vdone.
+
+  Lemma upd3_twice a3 t v w u : upd3 (upd3 a3 t v) t w u = upd3 a3 t w u.
+  Proof. unfold upd3. destruct (Nat.eqb u t); reflexivity. Qed.
+
+  Lemma PF_eqv g a1 a3 a3' : (forall u, a3' u = a3 u) -> PopFacts g a1 a3 -> PopFacts g a1 a3'.
+  Proof.
+    intros E [K1 K2 K3 K4 K5 K6 K7 K8 K9]. constructor; try assumption.
+    - intros u l. rewrite E. apply K1.
+    - intros u u' l. rewrite !E. apply K2.
+    - intros u d. rewrite E. apply K4.
+    - intros k j x Ha Hx. destruct (K5 k j x Ha Hx) as (y & Hy & Hle). exists y. split; [exact Hy|]. intros Hnd. apply Hle.
+      intros [u Hu]. apply Hnd. exists u. rewrite E. exact Hu.
+    - intros u p ch. rewrite E. apply K7.
+    - intros u. rewrite E. apply K8.
+    - intros u. rewrite E. apply K9.
+  Qed.
+
+  Lemma PL_eqv g a1 a3 a3' tr : (forall u, a3' u = a3 u) -> PL g a1 a3 tr -> PL g a1 a3' tr.
+  Proof.
+    intros E L. apply (PL_same g g a1 a1 a3 a3' tr 0); auto; try (rewrite E; reflexivity). intros _. rewrite E. tauto.
+  Qed.
+
+  Lemma PL_done g g' a1 a1' a3 tr t :
+    (forall i, cellv g' i = cellv g i) -> count g' = count g -> (forall u, u <> t -> tvs a1' u = tvs a1 u) ->
+    hand (tvs a1' t) = hand (tvs a1 t) -> pst (a3 t) <> Owing -> PL g a1 a3 tr -> PL g' a1' a3 tr.
+  Proof. intros Hcv Hc Ho Hh Hne L. apply (PL_same g g' a1 a1' a3 a3 tr t); auto. intros E. contradiction. Qed.
+
+  Lemma PL_top_occupied g a1 a3 tr t :
+    PL g a1 a3 tr -> pin (a3 t) = true -> pst (a3 t) = Owing -> In 1 (plk (a3 t)) -> cellv g 1 <> None.
+  Proof.
+    intros (s & stt & oS & o1 & Hrun & Hlen & Hst & HS & H1 & Hcov & HM) Hp Ho Hin.
+    destruct (Hcov t Hp Ho) as [[r E]|[r E]].
+    - destruct (HS t r E) as (_ & _ & _ & _ & A5 & _). contradiction.
+    - destruct (H1 t r E) as (_ & _ & _ & _ & z & Hz & _). congruence.
+  Qed.
+
+  Lemma PF_a1_same g a1 a1' a3 t :
+    PopFacts g a1 a3 -> (forall u, u <> t -> tvs a1' u = tvs a1 u) -> pstore (tvs a1' t) = None -> inop (tvs a1' t) = true ->
+    pin (a3 t) = true -> PopFacts g a1' a3.
+  Proof. intros F H1 H2 H3 H4. apply (PF_a1 g g a1 a1' a3 t F); auto. Qed.
+
+  Lemma PF_size g g' a1 a1' a3 t :
+    PopFacts g a1 a3 -> (forall i, heap g' i = heap g i) ->
+    (forall u, u <> t -> tvs a1' u = tvs a1 u) -> pstore (tvs a1' t) = None -> inop (tvs a1' t) = true ->
+    pin (a3 t) = true -> PopFacts g' a1' a3.
+  Proof.
+    intros F Hh H1 H2 H3 H4. apply (PF_a1 g g' a1 a1' a3 t F); auto; intros i; unfold cellv, cellt; rewrite Hh; reflexivity.
+  Qed.
+
+  Lemma cellv_heap g g' : (forall i, heap g' i = heap g i) -> forall i, cellv g' i = cellv g i.
+  Proof. intros H i. unfold cellv. rewrite H. reflexivity. Qed.
+
+  Lemma tsafe_pop hf lf t : tsafe t (pop bsz hf lf) (PV Vpop Vstart) (optQ3 Qtpop).
+  Proof.
+    unfold pop. apply tsafe_lock; [reflexivity|]. intros g a a3 tr Hi Hv V3 Hfree. cbn [lockbit] in Hfree.
+    pose proof (Inv_acq0 cap g a tr t Vpop Hv eq_refl Hfree Hi) as H1. cbn [set_hs Vpop hs hand pstore pclear inop pfail] in H1.
+    set (g1 := set_lockbit g 0 true) in *. set (P1 := mkTv true None None None true false) in *.
+    set (a1 := updv a t P1) in *.
+    assert (Hv1 : tvs a1 t = P1) by apply tvs_updv_same.
+    assert (Hpin : pin (a3 t) = true) by (rewrite V3; reflexivity).
+    assert (Hh0 : hand (tvs a t) = None) by (rewrite Hv; reflexivity).
+    unfold body_pop_size. destruct (Z.eqb (bc (ctr g1)) 0) eqn:Eempty.
+    - (* empty *)
+      cbn [fst snd]. exists a1, (upd3 a3 t Vdone). split; [apply Inv_irrelevant; [reflexivity|exact H1]|]. split; [reflexivity|].
+      split; [intros u Hu; apply tvs_updv_other; exact Hu|]. split; [intros u Hu; apply upd3_other; exact Hu|]. rewrite upd3_same. split; [reflexivity|]. split; [reflexivity|].
+      split.
+      { intros F L. split.
+        - assert (F1 : PopFacts g1 a1 a3) by (apply (PF_size g g1 a a1 a3 t F); auto; [intros u Hu; apply tvs_updv_other; exact Hu|rewrite Hv1; reflexivity|rewrite Hv1; reflexivity]).
+          apply (PF_io g1 a1 a1 a3 t Vdone F1); rewrite ?V3, ?Hv1; try reflexivity; auto; try (intros E; discriminate E).
+        - apply Z.eqb_eq in Eempty.
+          assert (Hz : count g = 0) by (unfold count; change (ctr g) with (ctr g1); rewrite Eempty; reflexivity).
+          apply (PL_emp g g1 a a1 a3 tr t Hz eq_refl (fun i => eq_refl) V3 Hh0); [intros u Hu; apply tvs_updv_other; exact Hu|rewrite Hv1; reflexivity|exact L]. }
+      intros _. rewrite Hv1. cbn [unbusy vb vn vi verr].
+      apply tsafe_unlock; [reflexivity|]. intros g2 a2 b3 tr2 Hi2 Hv2 W3. cbn [body_none fst snd].
+      pose proof (Inv_rel0 cap g2 a2 tr2 t _ Hv2 eq_refl eq_refl eq_refl Hi2) as H4. cbn [set_hs P1 hs hand pstore pclear inop pfail] in H4.
+      exists (updv a2 t (mkTv false None None None true false)), b3. split; [apply Inv_irrelevant; [reflexivity|exact H4]|]. split; [reflexivity|].
+      split; [intros u Hu; apply tvs_updv_other; exact Hu|]. split; [reflexivity|]. split; [rewrite W3; reflexivity|]. split; [rewrite W3; reflexivity|].
+      split.
+      { intros F L. split.
+        - apply (PF_size g2 _ a2 _ b3 t F); auto; [intros u Hu; apply tvs_updv_other; exact Hu|rewrite tvs_updv_same; reflexivity|rewrite tvs_updv_same; reflexivity|rewrite W3; reflexivity].
+        - apply PL_quiet; [reflexivity|]. apply (PL_done g2 _ a2 _ b3 tr2 t); auto; [intros u Hu; apply tvs_updv_other; exact Hu|rewrite tvs_updv_same, Hv2; reflexivity|rewrite W3; discriminate]. }
+      intros _. rewrite tvs_updv_same, W3. reflexivity.
+    - (* the bottom cell is claimed *)
+      apply Z.eqb_neq in Eempty.
+      assert (Hge : 1 <= count g1).
+      { pose proof (iC _ _ _ _ H1) as [C1 C2]. unfold count in *. rewrite C1 in Eempty at 1. rewrite bc_st in Eempty. rewrite C1, bc_st. lia. }
+      destruct (Inv_dec cap OK g1 a1 tr t P1 Hv1 eq_refl eq_refl eq_refl Hge H1) as [Hslot H2].
+      assert (Hcnt : count (set_ctr g1 (snd (brc_dec (ctr g1)))) = pred (count g)).
+      { pose proof (iC _ _ _ _ H1) as [C1 C2]. unfold count at 1. cbn [ctr set_ctr]. rewrite C1. rewrite (MsPqBrc.dec_st cap OK (count g1)) by lia. rewrite count_st. reflexivity. }
+      destruct (brc_dec (ctr g1)) as [s c'] eqn:Edec. cbn [fst snd] in *.
+      set (b := slot (count g1)) in *. rewrite Hslot.
+      assert (Rb : 1 <= b <= cap) by (apply (slot_range cap OK); pose proof (iC _ _ _ _ H1) as [_ C2]; lia).
+      assert (Hin : Nat.ltb b bsz = true) by (apply Nat.ltb_lt; lia). rewrite Hin.
+      cbn [set_pclear P1 hs hand pstore pclear inop pfail] in H2.
+      set (P2 := mkTv true None None (Some b) true false) in *.
+      set (w0 := mkP true false [] None None Owing).
+      exists (updv a1 t P2), (upd3 a3 t w0). split; [apply Inv_irrelevant; [reflexivity|exact H2]|]. split; [reflexivity|].
+      split; [intros u Hu; unfold a1; rewrite !tvs_updv_other by exact Hu; reflexivity|]. split; [intros u Hu; apply upd3_other; exact Hu|]. rewrite upd3_same. split; [reflexivity|]. split; [reflexivity|].
+      split.
+      { intros F L. split.
+        - assert (F1 : PopFacts (set_ctr g1 c') (updv a1 t P2) a3) by (apply (PF_size g _ a _ a3 t F); auto; [intros u Hu; unfold a1; rewrite !tvs_updv_other by exact Hu; reflexivity|rewrite tvs_updv_same; reflexivity|rewrite tvs_updv_same; reflexivity]).
+          apply (PF_io _ _ (updv a1 t P2) a3 t w0 F1); rewrite ?V3, ?tvs_updv_same; try reflexivity; auto; try (intros E; discriminate E).
+        - apply (PL_lp g (set_ctr g1 c') a (updv a1 t P2) a3 tr t Hfree (iS _ _ _ _ Hi) Hge Hcnt (fun i => eq_refl) V3 Hh0);
+            [intros u Hu; unfold a1; rewrite !tvs_updv_other by exact Hu; reflexivity|rewrite tvs_updv_same; reflexivity|rewrite tvs_updv_same; reflexivity|exact L]. }
+      intros _. rewrite tvs_updv_same. cbn [unbusy vb vn vi verr].
+      destruct (Nat.eqb_spec b 1) as [Eb|Nb].
+      + (* nBottom = 1: the top cell itself is emptied *)
+        apply tsafe_lock; [reflexivity|]. intros g2 a2 b3 tr2 Hi2 Hv2 W3 Hfree2. cbn [body_take fst snd]. cbn [lockbit] in Hfree2.
+        pose proof (Inv_nodelock cap g2 a2 tr2 1 true ltac:(discriminate) Hi2) as Hi2'.
+        destruct (Inv_take cap OK _ a2 tr2 t _ 1 Hv2 ltac:(cbn; rewrite Eb; reflexivity) eq_refl eq_refl eq_refl Hi2') as (y & Hy & H3).
+        pose proof Hy as Hy0. unfold cellv in Hy. rewrite Hy.
+        cbn [set_hand set_pclear P2 hs hand pstore pclear inop pfail] in H3.
+        set (c1 := set_held _ _) in H3.
+        assert (Hvc : tvs c1 t = mkTv true (Some y) None None true false) by (subst c1; cbn; rewrite Nat.eqb_refl; reflexivity).
+        assert (Hoc : forall u, u <> t -> tvs c1 u = tvs a2 u) by (intros u Hu; subst c1; cbn; destruct (Nat.eqb_spec u t); congruence).
+        set (wo := mkP true false [1] None None Owing). set (w1 := mkP true false [1] None None Done).
+        exists c1, (upd3 b3 t w1). split; [apply Inv_irrelevant; [reflexivity|exact H3]|]. split; [reflexivity|].
+        split; [exact Hoc|]. split; [intros u Hu; apply upd3_other; exact Hu|]. rewrite upd3_same. split; [reflexivity|]. split; [reflexivity|]. split.
+        * intros F L. split.
+          -- assert (F2 : PopFacts (set_lockbit g2 1 true) a2 (upd3 b3 t w1)).
+             { apply (PF_lock g2 a2 b3 t 1 w1 F ltac:(discriminate) Hfree2); rewrite ?W3; try reflexivity. intros p ch _ E. discriminate. }
+             assert (F3 : PopFacts (set_cell (set_lockbit g2 1 true) 1 TEmpty None) a2 (upd3 b3 t w1)).
+             { apply (PF_take _ a2 _ t 1 F2); rewrite ?upd3_same; [left; reflexivity|reflexivity|].
+               apply (no_desc_bottom _ a2 tr2 t 1 Hi2' (k6 _ _ _ F2)). rewrite Hv2. cbn. rewrite Eb. reflexivity. }
+             apply (PF_a1_same _ a2 c1 _ t F3 Hoc); rewrite ?Hvc, ?upd3_same; reflexivity.
+          -- apply PL_quiet; [reflexivity|].
+             assert (L2 : PL (set_lockbit g2 1 true) a2 (upd3 b3 t wo) tr2).
+             { apply (PL_lock1 g2 a2 b3 tr2 t wo F Hi2 Hfree2); rewrite ?W3; try reflexivity; [left; reflexivity|exact L]. }
+             apply (PL_eqv _ c1 (upd3 (upd3 b3 t wo) t w1)); [intros u; symmetry; apply upd3_twice|].
+             apply (PL_taketop (set_lockbit g2 1 true) _ a2 c1 (upd3 b3 t wo) tr2 t y w1); rewrite ?upd3_same; try reflexivity; auto; try lia.
+             ++ intros k. rewrite cellv_set_cell. reflexivity.
+             ++ left. reflexivity.
+             ++ rewrite Hv2. reflexivity.
+             ++ rewrite Hvc. reflexivity.
+        * intros _. rewrite Hvc. cbn [unbusy vb vn vi verr].
+          apply (tsafe_unlock_plain t 1 _ _ [1] [] None Done); [discriminate|discriminate|left; reflexivity|intros x []|discriminate|].
+          apply tsafe_unlock; [reflexivity|]. intros g4 a4 b4 tr4 Hi4 Hv4 W4. cbn [body_none fst snd].
+          pose proof (Inv_rel0 cap g4 a4 tr4 t _ Hv4 eq_refl eq_refl eq_refl Hi4) as H5. cbn [set_hs hs hand pstore pclear inop pfail] in H5.
+          exists (updv a4 t (mkTv false (Some y) None None true false)), b4. split; [apply Inv_irrelevant; [reflexivity|exact H5]|]. split; [reflexivity|].
+          split; [intros u Hu; apply tvs_updv_other; exact Hu|]. split; [reflexivity|]. split; [rewrite W4; reflexivity|]. split; [rewrite W4; reflexivity|].
+          split.
+          { intros F L. split.
+            - apply (PF_size g4 _ a4 _ b4 t F); auto; [intros u Hu; apply tvs_updv_other; exact Hu|rewrite tvs_updv_same; reflexivity|rewrite tvs_updv_same; reflexivity|rewrite W4; reflexivity].
+            - apply PL_quiet; [reflexivity|]. apply (PL_done g4 _ a4 _ b4 tr4 t); auto; [intros u Hu; apply tvs_updv_other; exact Hu|rewrite tvs_updv_same, Hv4; reflexivity|rewrite W4; discriminate]. }
+          intros _. rewrite tvs_updv_same, W4. reflexivity.
+      + (* Q2: the top lock *)
+        apply tsafe_lock_node; [discriminate|reflexivity|]. intros g2 a2 b3 tr2 Hi2 Hv2 W3 Hfree2. cbn [body_none fst snd].
+        set (wo := mkP true false [1] None None Owing).
+        exists (upd3 b3 t wo). split; [apply Inv_nodelock; [discriminate|exact Hi2]|]. split; [reflexivity|].
+        split; [intros u Hu; apply upd3_other; exact Hu|]. rewrite upd3_same. split; [reflexivity|]. split; [reflexivity|]. split.
+        { intros F L. split.
+          - apply (PF_lock g2 a2 b3 t 1 wo F ltac:(discriminate) Hfree2); rewrite ?W3; try reflexivity. intros p ch _ E. discriminate.
+          - apply (PL_lock1 g2 a2 b3 tr2 t wo F Hi2 Hfree2); rewrite ?W3; try reflexivity; [left; reflexivity|exact L]. }
+        intros _. cbn [v0 unbusy].
+        apply tsafe_lock_plain; [lia|intros _; exact Nb|].
+        apply tsafe_unlock; [reflexivity|]. intros g3 a4 b4 tr3 Hi3 Hv3 W4. cbn [body_take fst snd].
+        destruct (Inv_take cap OK g3 a4 tr3 t _ b Hv3 eq_refl eq_refl eq_refl eq_refl Hi3) as (y & Hy & H3).
+        pose proof Hy as Hy0. unfold cellv in Hy. rewrite Hy.
+        cbn [set_hand set_pclear P2 hs hand pstore pclear inop pfail] in H3.
+        set (c1 := set_held _ _) in H3.
+        assert (Hvc : tvs c1 t = mkTv true (Some y) None None true false) by (subst c1; cbn; rewrite Nat.eqb_refl; reflexivity).
+        assert (Hoc : forall u, u <> t -> tvs c1 u = tvs a4 u) by (intros u Hu; subst c1; cbn; destruct (Nat.eqb_spec u t); congruence).
+        pose proof (Inv_rel0 cap _ c1 tr3 t _ Hvc eq_refl eq_refl eq_refl H3) as H4. cbn [set_hs hs hand pstore pclear inop pfail] in H4.
+        set (P3 := mkTv false (Some y) None None true false) in *.
+        assert (Hoc' : forall u, u <> t -> tvs (updv c1 t P3) u = tvs a4 u) by (intros u Hu; rewrite tvs_updv_other by exact Hu; apply Hoc; exact Hu).
+        exists (updv c1 t P3), b4. split; [apply Inv_irrelevant; [reflexivity|exact H4]|]. split; [reflexivity|].
+        split; [exact Hoc'|]. split; [reflexivity|]. split; [rewrite W4; reflexivity|]. split; [rewrite W4; reflexivity|]. split.
+        * intros F L. split.
+          -- assert (F3 : PopFacts (set_cell g3 b TEmpty None) a4 b4).
+             { apply (PF_take g3 a4 b4 t b F); rewrite ?W4; [left; reflexivity|reflexivity|].
+               apply (no_desc_bottom g3 a4 tr3 t b Hi3 (k6 _ _ _ F)). rewrite Hv3. reflexivity. }
+             apply (PF_size _ _ a4 _ b4 t F3); auto; [rewrite tvs_updv_same; reflexivity|rewrite tvs_updv_same; reflexivity|rewrite W4; reflexivity].
+          -- apply PL_quiet; [reflexivity|].
+             apply (PL_take g3 _ a4 _ b4 tr3 t b y Rb Nb Hy0); rewrite ?W4, ?tvs_updv_same; try reflexivity; auto.
+             ++ intros k. rewrite cellv_set_lockbit, cellv_set_cell. reflexivity.
+             ++ right. left. reflexivity.
+             ++ rewrite Hv3. reflexivity.
+        * intros _. rewrite tvs_updv_same, W4. cbn [vb vn vi verr].
+          apply tsafe_unlock; [reflexivity|]. intros g5 a5 b5 tr5 Hi5 Hv5 W5. unfold body_pop_top.
+          destruct (tag_eqb (ntag (heap g5 1)) TEmpty) eqn:Etop; cbn [fst snd].
+          -- set (w1 := mkP true false [1] None None Done).
+             exists a5, (upd3 b5 t w1). split; [apply Inv_irrelevant; [reflexivity|apply Inv_nodelock; [lia|exact Hi5]]|]. split; [reflexivity|].
+             split; [intros; reflexivity|]. split; [intros u Hu; apply upd3_other; exact Hu|]. rewrite upd3_same. split; [reflexivity|]. split; [reflexivity|]. split.
+             ++ intros F L. split.
+                ** apply (PF_unlock g5 a5 b5 t b w1 F); rewrite ?W5; [lia|left; reflexivity|reflexivity|reflexivity| |reflexivity|intros d E; discriminate|reflexivity].
+                   intros x [<-|[]]. split; [right; left; reflexivity|lia].
+                ** exfalso. apply (PL_top_occupied g5 a5 b5 tr5 t L); rewrite ?W5; try reflexivity; [right; left; reflexivity|].
+                   apply (iT _ _ _ _ Hi5). apply tag_eqb_eq in Etop. exact Etop.
+             ++ intros _. rewrite Hv5. cbn [vb vn vi verr].
+                apply (tsafe_unlock_plain t 1 _ _ [1] [] None Done); [discriminate|discriminate|left; reflexivity|intros x []|discriminate|]. reflexivity.
+          -- assert (Hz : cellv g5 1 <> None).
+             { apply T_some; [apply (iT _ _ _ _ Hi5)|]. intros E. unfold cellt in E. rewrite E in Etop. discriminate. }
+             destruct (cellv g5 1) as [z|] eqn:Ez; [|congruence]. pose proof Ez as Ez0. unfold cellv in Ez. rewrite Ez.
+             pose proof (Inv_poptop cap g5 a5 tr5 t _ y z Hv5 eq_refl Ez Hi5) as H6.
+             cbn [set_hand P3 hs hand pstore pclear inop pfail] in H6. set (a6 := set_held _ _) in H6.
+             assert (Hv6 : tvs a6 t = mkTv false (Some z) None None true false) by (subst a6; cbn; rewrite Nat.eqb_refl; reflexivity).
+             assert (Ho6 : forall u, u <> t -> tvs a6 u = tvs a5 u) by (intros u Hu; subst a6; cbn; destruct (Nat.eqb_spec u t); congruence).
+             set (w1 := mkP true false [b; 1] (Some 1) None Owing). set (w2 := mkP true false [1] (Some 1) None Done).
+             exists a6, (upd3 b5 t w2). split; [apply Inv_irrelevant; [reflexivity|apply Inv_nodelock; [lia|exact H6]]|]. split; [reflexivity|].
+             split; [exact Ho6|]. split; [intros u Hu; apply upd3_other; exact Hu|]. rewrite upd3_same. split; [reflexivity|]. split; [reflexivity|]. split.
+             ++ intros F L. split.
+                ** assert (F2 : PopFacts (set_cell g5 1 TAvail (Some y)) a5 (upd3 b5 t w1)).
+                   { apply (PF_poptop g5 a5 b5 t y w1 F); rewrite ?W5; [right; left; reflexivity|reflexivity|reflexivity|reflexivity]. }
+                   assert (F3 : PopFacts (set_lockbit (set_cell g5 1 TAvail (Some y)) b false) a5 (upd3 (upd3 b5 t w1) t w2)).
+                   { apply (PF_unlock _ a5 _ t b w2 F2); rewrite ?upd3_same; [lia|left; reflexivity|reflexivity|reflexivity| |reflexivity|intros d E; inversion E; subst; left; reflexivity|reflexivity].
+                     intros x [<-|[]]. split; [right; left; reflexivity|lia]. }
+                   apply (PF_eqv _ a6 (upd3 (upd3 b5 t w1) t w2)); [intros u; symmetry; apply upd3_twice|].
+                   apply (PF_a1_same _ a5 a6 _ t F3 Ho6); rewrite ?Hv6, ?upd3_same; reflexivity.
+                ** apply PL_quiet; [reflexivity|].
+                   apply (PL_poptop g5 _ a5 a6 b5 tr5 t y z w2 ltac:(lia) Ez0);
+                     [intros k; rewrite cellv_set_lockbit, cellv_set_cell; reflexivity|rewrite count_set_lockbit; reflexivity
+                     |rewrite W5; reflexivity|rewrite W5; reflexivity|rewrite W5; right; left; reflexivity|rewrite Hv5; reflexivity
+                     |exact Ho6|rewrite Hv6; reflexivity|reflexivity|reflexivity|exact L].
+             ++ intros _. rewrite Hv6. cbn [vb vn vi verr]. unfold obind. apply Conc.safe_bind.
+                eapply Conc.safe_weaken; [|apply (tsafe_heapify_pop lf t _ Done ltac:(discriminate) hf 1 2); [lia|reflexivity]].
+                intros [[]|] l' Hl'; cbn in Hl' |- *; [rewrite Hl'; reflexivity|exact I].
+  Qed.
+  (** *** the events at the boundaries of the operations *)
+  Lemma scan_snoc tr t e : scan_of (tr ++ Conc.tag t [e]) = scan_step (scan_of tr) (t, e).
+  Proof. rewrite scan_app. reflexivity. Qed.
+
+  Lemma PExt_idle g a1 a3 tr t es : forallb sn es = true -> forallb quiet1 es = true -> PExt g a1 a3 tr -> PExt g a1 a3 (tr ++ Conc.tag t es).
+  Proof.
+    intros Hes Hq (U1 & U2 & U3 & U4 & U6 & U5). unfold PExt. rewrite (scan_neutral_app tr t es Hes).
+    split; [exact U1|]. split; [exact U2|]. split; [exact U3|]. split; [exact U4|]. split; [exact U6|].
+    intros Hb Hs. destruct (U5 Hb Hs) as [F L]. split; [exact F|apply PL_quiet; assumption].
+  Qed.
+
+  Lemma PExt_inv_push g a1 a1' a3 tr t args :
+    (forall u, u <> t -> tvs a1' u = tvs a1 u) -> PExt g a1 a3 tr ->
+    PExt g a1' (upd3 a3 t (mkP false true [] None None NotLin)) (tr ++ Conc.tag t [EvCli "inv_push" args]).
+  Proof.
+    intros Hoth (U1 & U2 & U3 & U4 & U6 & U5). unfold PExt. rewrite scan_snoc.
+    change (scan_step (scan_of tr) (t, EvCli "inv_push" args))
+      with (mkS (t :: pp (scan_of tr)) (seen (scan_of tr)) (bad (scan_of tr) || seen (scan_of tr))).
+    cbn [pp seen bad]. set (s := scan_of tr) in *.
+    split; [|split; [|split; [|split; [|split]]]].
+    - intros u Hu. destruct (Nat.eq_dec u t) as [->|N]; [left; reflexivity|]. rewrite upd3_other in Hu by exact N. right. apply U1. exact Hu.
+    - intros u Hu. destruct (seen s); [right; apply orb_true_r|left; reflexivity].
+    - intros u Hu. destruct (Nat.eq_dec u t) as [->|N]; [rewrite upd3_same in Hu; discriminate|]. rewrite upd3_other in Hu by exact N. apply U3 with u. exact Hu.
+    - intros Hs u Hu. destruct (Nat.eq_dec u t) as [->|N]; [rewrite upd3_same; reflexivity|]. rewrite upd3_other by exact N. apply (U4 Hs). rewrite <- Hoth by exact N. exact Hu.
+    - intros u Hu. destruct (Nat.eq_dec u t) as [->|N]; [rewrite upd3_same; repeat split|]. rewrite upd3_other in * by exact N. apply U6. exact Hu.
+    - intros Hb Hs. rewrite Hs, orb_true_r in Hb. discriminate.
+  Qed.
+
+  Lemma PExt_ret_push g a1 a1' a3 tr t args :
+    psh (a3 t) = true -> (forall u, u <> t -> tvs a1' u = tvs a1 u) -> inop (tvs a1' t) = false -> PExt g a1 a3 tr ->
+    PExt g a1' (upd3 a3 t idle3) (tr ++ Conc.tag t [EvCli "ret_push" args]).
+  Proof.
+    intros Hp Hoth Hin (U1 & U2 & U3 & U4 & U6 & U5). unfold PExt. rewrite scan_snoc.
+    change (scan_step (scan_of tr) (t, EvCli "ret_push" args))
+      with (mkS (filter (fun u => negb (Nat.eqb u t)) (pp (scan_of tr))) (seen (scan_of tr)) (bad (scan_of tr))).
+    cbn [pp seen bad]. set (s := scan_of tr) in *.
+    split; [|split; [|split; [|split; [|split]]]].
+    - intros u Hu. destruct (Nat.eq_dec u t) as [->|N]; [rewrite upd3_same in Hu; discriminate|]. rewrite upd3_other in Hu by exact N.
+      apply filter_In. split; [apply U1; exact Hu|]. apply negb_true_iff. apply Nat.eqb_neq. exact N.
+    - intros u Hu. destruct (Nat.eq_dec u t) as [->|N]; [rewrite upd3_same in Hu; discriminate|]. rewrite upd3_other in Hu by exact N. apply (U2 u Hu).
+    - intros u Hu. destruct (Nat.eq_dec u t) as [->|N]; [rewrite upd3_same in Hu; discriminate|]. rewrite upd3_other in Hu by exact N. apply (U3 u Hu).
+    - intros Hs u Hu. destruct (Nat.eq_dec u t) as [->|N]; [congruence|]. rewrite upd3_other by exact N. apply (U4 Hs). rewrite <- Hoth by exact N. exact Hu.
+    - intros u Hu. destruct (Nat.eq_dec u t) as [->|N]; [rewrite upd3_same; repeat split|]. rewrite upd3_other in * by exact N. apply U6. exact Hu.
+    - intros Hb Hs. destruct (U2 t Hp); congruence.
+  Qed.
+
+  Lemma PExt_ret_pop g a1 a1' a3 tr t args rv :
+    a3 t = Vdone -> (forall u, u <> t -> tvs a1' u = tvs a1 u) -> tvs a1' t = idle ->
+    aev_of cap (t, EvCli "ret_pop" args) = [@ARes Sp t (RVal rv : Res Sp)] -> option_map prio (hand (tvs a1 t)) = rv ->
+    PExt g a1 a3 tr ->
+    PExt g a1' (upd3 a3 t idle3) (tr ++ Conc.tag t [EvCli "ret_pop" args]).
+  Proof.
+    intros Hv Hoth Hid Hae Hrv (U1 & U2 & U3 & U4 & U6 & U5). unfold PExt. rewrite (scan_neutral_app tr t [EvCli "ret_pop" args] eq_refl).
+    assert (Hseen : seen (scan_of tr) = true) by (apply (U3 t); rewrite Hv; reflexivity).
+    split; [|split; [|split; [|split; [|split]]]].
+    - intros u Hu. destruct (Nat.eq_dec u t) as [->|N]; [rewrite upd3_same in Hu; discriminate|]. rewrite upd3_other in Hu by exact N. apply (U1 u Hu).
+    - intros u Hu. destruct (Nat.eq_dec u t) as [->|N]; [rewrite upd3_same in Hu; discriminate|]. rewrite upd3_other in Hu by exact N. apply (U2 u Hu).
+    - intros u Hu. exact Hseen.
+    - congruence.
+    - intros u Hu. destruct (Nat.eq_dec u t) as [->|N]; [rewrite upd3_same; repeat split|]. rewrite upd3_other in * by exact N. apply U6. exact Hu.
+    - intros Hb Hs. destruct (U5 Hb Hs) as [F L]. split.
+      + apply (PF_io g a1 a1' a3 t idle3 F); rewrite ?Hv, ?Hid; try reflexivity; [exact Hoth|discriminate].
+      + apply (PL_ret_pop g a1 a1' a3 tr t args rv Hv Hae Hrv Hoth L).
+  Qed.
+
+  (** ancestors of a cell in use are in use (push phase, quiescent) *)
+  Lemma anc_occupied g a1 a2 tr : MsPqInv.Inv cap g a1 tr -> A_ok a1 a2 -> forall j k, anc j k -> cellv g k <> None -> cellv g j <> None.
+  Proof.
+    intros Hi HA j k Ha. induction Ha as [k Hk|j k Hk Ha IH]; intros Hv.
+    - apply T_some; [apply (iT _ _ _ _ Hi)|]. apply (parent_in_use cap OK SH bsz Hbsz g a1 a2 tr k Hi HA Hk Hv).
+    - apply IH. apply T_some; [apply (iT _ _ _ _ Hi)|]. apply (parent_in_use cap OK SH bsz Hbsz g a1 a2 tr k Hi HA Hk Hv).
+  Qed.
+
+  (** the first pop finds the heap the push phase left behind *)
+  Lemma PF_first g a1 a2 a3 tr :
+    Inv g a1 tr -> W_ok g a2 -> B_ok g -> A_ok a1 a2 -> (forall u, inop (tvs a1 u) = false) ->
+    (forall u, pin (a3 u) = false /\ plk (a3 u) = [] /\ pdirty (a3 u) = None) -> PopFacts g a1 a3.
+  Proof.
+    intros Hi HW HB HA Hidle Hclean. pose proof HA as [A1 A2].
+    assert (Hown : forall u, own (a2 u) = None).
+    { intros u. destruct (own (a2 u)) eqn:E; [|reflexivity]. pose proof (A2 u ltac:(right; right; congruence)) as K. rewrite Hidle in K. discriminate. }
+    assert (Hps : forall u, pstore (tvs a1 u) = None).
+    { intros u. destruct (pstore (tvs a1 u)) eqn:E; [|reflexivity]. pose proof (A2 u ltac:(right; left; congruence)). rewrite Hidle in H. discriminate. }
+    assert (Htag : forall i u, cellt g i <> TOwner u) by (intros i u E; apply HW in E; rewrite Hown in E; discriminate).
+    constructor.
+    - intros u l Hl. destruct (Hclean u) as (_ & E & _). rewrite E in Hl. destruct Hl.
+    - intros u u' l Hl. destruct (Hclean u) as (_ & E & _). rewrite E in Hl. destruct Hl.
+    - exact Htag.
+    - intros u d Hd. destruct (Hclean u) as (_ & _ & E). congruence.
+    - intros k j x Ha Hx.
+      assert (Hj : cellv g j <> None) by (apply (anc_occupied g a1 a2 tr Hi HA j k Ha); congruence).
+      destruct (cellv g j) as [y|] eqn:Ey; [|congruence]. exists y. split; [reflexivity|]. intros _.
+      apply (HB k j x y Ha); [|exact Hx|exact Ey].
+      destruct (cellt g k) as [| |u] eqn:Et; [|reflexivity|exfalso; apply (Htag k u Et)].
+      exfalso. assert (cellv g k = None) by (apply (iT _ _ _ _ Hi); exact Et). congruence.
+    - exact Hps.
+    - intros u p ch Hd. destruct (Hclean u) as (_ & _ & E). congruence.
+    - intros u Hu. destruct (Hclean u) as (E & _). congruence.
+    - intros u _. destruct (Hclean u) as (_ & E1 & E2). split; [exact E1|]. split; [exact E2|apply A1].
+  Qed.
+
+  Lemma PExt_inv_pop g a1 a1' a2 a3 tr t :
+    Inv g a1 tr -> Ext g a1 a2 tr -> a3 t = idle3 -> (forall u, u <> t -> tvs a1' u = tvs a1 u) ->
+    pstore (tvs a1' t) = None -> inop (tvs a1' t) = true ->
+    (seen (scan_of tr) = false -> (forall u, pend tr u = false) ->
+       exists (s : list Z) (stt : nat -> status Sp), lp_run lp_init (atrace cap tr) = Some (s, stt) /\ List.length s = count g /\
+         (forall u, stt u = Lin.Idle) /\ Permutation s (prios cap (cellv g))) ->
+    PExt g a1 a3 tr ->
+    PExt g a1' (upd3 a3 t Vstart) (tr ++ Conc.tag t [EvCli "inv_pop" []]).
+  Proof.
+    intros Hi He Hid Hoth Hps Hin Hfirst (U1 & U2 & U3 & U4 & U6 & U5). unfold PExt. rewrite scan_snoc.
+    change (scan_step (scan_of tr) (t, EvCli "inv_pop" []))
+      with (mkS (pp (scan_of tr)) true (bad (scan_of tr) || match pp (scan_of tr) with [] => false | _ => true end)).
+    cbn [pp seen bad].
+    split; [|split; [|split; [|split; [|split]]]].
+    - intros u Hu. destruct (Nat.eq_dec u t) as [->|N]; [rewrite upd3_same in Hu; discriminate|]. rewrite upd3_other in Hu by exact N. apply (U1 u Hu).
+    - intros u Hu. destruct (Nat.eq_dec u t) as [->|N]; [rewrite upd3_same in Hu; discriminate|]. rewrite upd3_other in Hu by exact N.
+      right. pose proof (U1 u Hu) as Hin'. destruct (pp (scan_of tr)); [destruct Hin'|apply orb_true_r].
+    - reflexivity.
+    - discriminate.
+    - intros u Hu. destruct (Nat.eq_dec u t) as [->|N]; [rewrite upd3_same in Hu; discriminate|]. rewrite upd3_other in * by exact N. apply U6. exact Hu.
+    - intros Hb _. apply orb_false_iff in Hb. destruct Hb as [Hb Hpp].
+      destruct (seen (scan_of tr)) eqn:Es.
+      + destruct (U5 Hb eq_refl) as [F L]. split.
+        * apply (PF_io g a1 a1' a3 t Vstart F); rewrite ?Hid; try reflexivity; auto. discriminate.
+        * apply (PL_inv_pop g a1 a1' a3 tr t); [rewrite Hid; reflexivity|exact Hoth|exact L].
+      + assert (Hnopsh : forall u, psh (a3 u) = false).
+        { intros u. destruct (psh (a3 u)) eqn:E; [|reflexivity]. pose proof (U1 u E) as K. destruct (pp (scan_of tr)); [destruct K|discriminate]. }
+        assert (Hidle : forall u, inop (tvs a1 u) = false).
+        { intros u. destruct (inop (tvs a1 u)) eqn:E; [|reflexivity]. pose proof (U4 eq_refl u E) as K. rewrite Hnopsh in K. discriminate. }
+        assert (Hnp : pop_invoked tr = false) by (rewrite <- seen_pop_invoked; exact Es).
+        destruct He as [_ E2]. destruct (E2 Hnp) as (HW & HB & HA).
+        assert (Hpu : forall u, pin (a3 u) = false) by (intros u; destruct (pin (a3 u)) eqn:E; [pose proof (U3 u E); congruence|reflexivity]).
+        assert (F : PopFacts g a1 a3).
+        { apply (PF_first g a1 a2 a3 tr Hi HW HB HA Hidle). intros u. destruct (U6 u (Hpu u)) as (Q1 & Q2 & _). auto. }
+        assert (Hq : forall u, pend tr u = false) by (intros u; rewrite (iP _ _ _ _ Hi u); apply Hidle).
+        destruct (Hfirst eq_refl Hq) as (s & stt & Hrun & Hlen & Hst & HM). split.
+        * apply (PF_io g a1 a1' a3 t Vstart F); rewrite ?Hid; try reflexivity; auto. discriminate.
+        * apply (PL_first g a1' a3 tr t s stt Hrun Hlen Hst HM Hpu).
+  Qed.
+
+  (** *** push is scan-neutral *)
+  Lemma quietp_bind {A B} (p : prog A) (q : A -> prog B) : quietp p -> (forall r, quietp (q r)) -> quietp (Conc.bind p q).
+  Proof.
+    induction p as [r|es k IH|f k IH]; cbn [Conc.bind quietp]; intros Hp Hq.
+    - apply Hq.
+    - destruct Hp. split; auto.
+    - destruct Hp as [H1 H2]. split; [exact H1|]. intros v. apply IH; auto.
+  Qed.
+
+  Definition qbody (bd : body) : Prop := forall g, forallb sn (snd (bd g)) = true.
+
+  Lemma quietp_lock_oi l bd : qbody bd -> forall f, quietp (lock_outer f l bd) /\ quietp (lock_inner f l bd).
+  Proof.
+    intros Hb. induction f as [|f [IHo IHi]]; [split; exact I|]. split.
+    - cbn [lock_outer quietp]. split.
+      + intros g. unfold a_lock. destruct (lockbit g l); [reflexivity|]. specialize (Hb (set_lockbit g l true)).
+        destruct (bd (set_lockbit g l true)) as [[g' v] es]. cbn [snd] in *. cbn [forallb sn]. exact Hb.
+      + intros v. destruct (vbusy v); [exact IHi|exact I].
+    - cbn [lock_inner quietp]. split; [intros g; reflexivity|]. intros v. destruct (vbusy v); assumption.
+  Qed.
+
+  Lemma quietp_checked {A} v (k : prog (option A)) : quietp k -> quietp (checked v k).
+  Proof. intros H. unfold checked. destruct (verr v) as [|[|c]]; [exact H| |]; cbn; auto. Qed.
+
+  Lemma quietp_lock_ {A} lf l bd (k : V -> prog (option A)) : qbody bd -> (forall v, quietp (k v)) -> quietp (lock_ lf l bd k).
+  Proof.
+    intros Hb Hk. unfold lock_, obind. apply quietp_bind; [apply (quietp_lock_oi l bd Hb lf)|].
+    intros [v|]; [apply quietp_checked; apply Hk|exact I].
+  Qed.
+
+  Lemma quietp_unlock_ {A} l bd (k : V -> prog (option A)) : qbody bd -> (forall v, quietp (k v)) -> quietp (unlock_ l bd k).
+  Proof.
+    intros Hb Hk. unfold unlock_, unlock. cbn [Conc.bind quietp]. split.
+    - intros g. unfold a_unlock. specialize (Hb g). destruct (bd g) as [[g' v] es]. cbn [snd] in *. cbn [forallb sn]. exact Hb.
+    - intros v. apply quietp_checked. apply Hk.
+  Qed.
+
+  Lemma qbody_none : qbody body_none.
+  Proof. intros g. reflexivity. Qed.
+
+  Lemma quietp_heapify_push lf t : forall hf i, quietp (heapify_push hf lf t i).
+  Proof.
+    induction hf as [|hf IH]; intros i; [exact I|]. cbn [heapify_push]. destruct (Nat.ltb 1 i).
+    - apply quietp_lock_; [apply qbody_none|]. intros _. apply quietp_lock_.
+      + intros g. unfold body_sift_up. destruct (_ && _); [destruct (nval _); [destruct (nval _); [destruct (Z.gtb _ _)|]|]|destruct (tag_eqb _ _); [|destruct (negb _)]]; reflexivity.
+      + intros v. apply quietp_unlock_; [apply qbody_none|]. intros _. apply quietp_unlock_; [apply qbody_none|]. intros _. apply IH.
+    - destruct (Nat.eqb i 1); [|exact I]. apply quietp_lock_.
+      + intros g. unfold body_push_top. destruct (tag_eqb _ _); reflexivity.
+      + intros _. apply quietp_unlock_; [apply qbody_none|]. intros _. exact I.
+  Qed.
+
+  Lemma quietp_push hf lf t x : quietp (push cap bsz hf lf t x).
+  Proof.
+    unfold push. apply quietp_lock_.
+    - intros g. unfold body_push_size. destruct (Z.leb _ _); [reflexivity|]. destruct (brc_inc (ctr g)). reflexivity.
+    - intros v. destruct (vb v).
+      + apply quietp_unlock_; [apply qbody_none|]. intros _. exact I.
+      + apply quietp_lock_; [apply qbody_none|]. intros _. apply quietp_unlock_; [intros g; reflexivity|]. intros _.
+        apply quietp_unlock_; [apply qbody_none|]. intros _. unfold obind. apply quietp_bind; [apply quietp_heapify_push|]. intros [[]|]; exact I.
+  Qed.
+
+
+  (** *** client operations *)
+  Definition Qtop : bool -> (tv * tv2) * pv -> Prop := fun ok l' => ok = true -> l' = ((idle, idle2), idle3).
+
+  Lemma tframe2 t a1 a1' (a2 a2' : Aux2) a3 a3' :
+    (forall u, u <> t -> tvs a1' u = tvs a1 u) -> (forall u, u <> t -> a2' u = a2 u) -> (forall u, u <> t -> a3' u = a3 u) ->
+    Conc.frame tview t ((a1, a2), a3) ((a1', a2'), a3').
+  Proof. intros H1 H2 H3 u Hu. unfold tview, jview. cbn [fst snd]. rewrite H1, H2, H3 by exact Hu. reflexivity. Qed.
+
+  Lemma Ext_more g a1 a2 tr es : Ext g a1 a2 tr -> Ext g a1 a2 (tr ++ es).
+  Proof.
+    intros [E1 E2]. split.
+    - intros u Hu. apply pop_invoked_mono. apply (E1 u Hu).
+    - intros Hf. apply E2. apply (pop_invoked_mono_f _ _ Hf).
+  Qed.
+
+  Lemma trun_op_push hf lf t x : tsafe t (run_op cap bsz hf lf t (OPush x)) ((idle, idle2), idle3) Qtop.
+  Proof.
+    cbn [run_op Conc.safe].
+    intros g [[a1 a2] a3] tr [[Hi He] Hx] Hv. unfold tview, jview in Hv. cbn [fst snd] in *. inversion Hv as [[V1 V2 V3]].
+    pose proof (Inv_inv_push cap g a1 tr t idle x V1 eq_refl eq_refl eq_refl Hi) as H1.
+    cbn [set_inop set_hand idle hs hand pstore pclear inop pfail] in H1. set (b1 := set_held _ _) in H1.
+    assert (Hv1 : tvs b1 t = Vpush x) by (subst b1; cbn; rewrite Nat.eqb_refl; reflexivity).
+    assert (Hoth1 : forall u, u <> t -> tvs b1 u = tvs a1 u) by (intros u Hu; subst b1; cbn; destruct (Nat.eqb_spec u t); congruence).
+    set (w := mkP false true [] None None NotLin).
+    exists ((b1, a2), upd3 a3 t w). split; [split; [split; [exact H1|]|]|].
+    { cbn [fst snd]. apply (Ext_same g g a1 b1 a2 tr _ t); auto; rewrite ?Hv1; try reflexivity; try (intros _; reflexivity). }
+    { cbn [fst snd]. apply (PExt_inv_push g a1 b1 a3 tr t (zitem x) Hoth1 Hx). }
+    split; [apply tframe2; [exact Hoth1|intros; reflexivity|intros u Hu; apply upd3_other; exact Hu]|].
+    unfold tview, jview. cbn [fst snd]. rewrite Hv1, V2, upd3_same. apply Conc.safe_bind.
+    eapply Conc.safe_weaken; [|apply (lift_psh _ t _ _ w eq_refl (quietp_push hf lf t x) (jsafe_push cap OK SH bsz Hbsz hf lf t x))].
+    intros [[|]|] [[l1 l2] l3] [Hl Hl3]; cbn [fst snd] in *; subst l3; cbn [Conc.safe].
+    + destruct Hl as [E1 E2]. cbn [fst snd] in *. unfold Qpush in E1. subst l1 l2.
+      intros g2 [[c1 c2] c3] tr2 [[Hi2 He2] Hx2] Hv2. unfold tview, jview in Hv2. cbn [fst snd] in *. inversion Hv2 as [[W1 W2 W3]].
+      pose proof (Inv_ret cap g2 c1 tr2 t _ "ret_push" 1%Z x false W1 eq_refl eq_refl eq_refl eq_refl (or_introl eq_refl) eq_refl) as H2.
+      set (c1' := set_held (updv c1 t idle) (hdel t (held c1))).
+      assert (Hv1' : tvs c1' t = idle) by (subst c1'; cbn; rewrite Nat.eqb_refl; reflexivity).
+      assert (Hoth' : forall u, u <> t -> tvs c1' u = tvs c1 u) by (intros u Hu; subst c1'; cbn; destruct (Nat.eqb_spec u t); congruence).
+      exists ((c1', c2), upd3 c3 t idle3). split; [split; [split|]|split; [apply tframe2; [exact Hoth'|intros; reflexivity|intros u Hu; apply upd3_other; exact Hu]|]].
+      * apply H2; [destruct x; reflexivity|destruct x; discriminate|exact Hi2].
+      * cbn [fst snd]. apply (Ext_same g2 g2 c1 c1' c2 tr2 _ t); auto; rewrite ?Hv1'; try reflexivity. rewrite W2. cbn. intros [K|[K|K]]; congruence.
+      * cbn [fst snd]. apply (PExt_ret_push g2 c1 c1' c3 tr2 t _); [rewrite W3; reflexivity|exact Hoth'|rewrite Hv1'; reflexivity|exact Hx2].
+      * unfold tview, jview. cbn [fst snd]. rewrite Hv1', W2, upd3_same. intros _. reflexivity.
+    + destruct Hl as [E1 E2]. cbn [fst snd] in *. unfold Qpush in E1. subst l1 l2.
+      intros g2 [[c1 c2] c3] tr2 [[Hi2 He2] Hx2] Hv2. unfold tview, jview in Hv2. cbn [fst snd] in *. inversion Hv2 as [[W1 W2 W3]].
+      pose proof (Inv_ret cap g2 c1 tr2 t _ "ret_push" 0%Z x true W1 eq_refl eq_refl eq_refl eq_refl (or_introl eq_refl) eq_refl) as H2.
+      set (c1' := set_held (updv c1 t idle) (hdel t (held c1))).
+      assert (Hv1' : tvs c1' t = idle) by (subst c1'; cbn; rewrite Nat.eqb_refl; reflexivity).
+      assert (Hoth' : forall u, u <> t -> tvs c1' u = tvs c1 u) by (intros u Hu; subst c1'; cbn; destruct (Nat.eqb_spec u t); congruence).
+      exists ((c1', c2), upd3 c3 t idle3). split; [split; [split|]|split; [apply tframe2; [exact Hoth'|intros; reflexivity|intros u Hu; apply upd3_other; exact Hu]|]].
+      * apply H2; [destruct x; reflexivity|reflexivity|exact Hi2].
+      * cbn [fst snd]. apply (Ext_same g2 g2 c1 c1' c2 tr2 _ t); auto; rewrite ?Hv1'; try reflexivity. rewrite W2. cbn. intros [K|[K|K]]; congruence.
+      * cbn [fst snd]. apply (PExt_ret_push g2 c1 c1' c3 tr2 t _); [rewrite W3; reflexivity|exact Hoth'|rewrite Hv1'; reflexivity|exact Hx2].
+      * unfold tview, jview. cbn [fst snd]. rewrite Hv1', W2, upd3_same. intros _. reflexivity.
+    + intros g2 [[c1 c2] c3] tr2 [[Hi2 He2] Hx2] Hv2. unfold tview, jview in Hv2. cbn [fst snd] in *. inversion Hv2 as [[W1 W2 W3]].
+      exists ((c1, c2), c3). split; [split; [split; [apply Inv_irrelevant; [reflexivity|exact Hi2]|]|]|].
+      * cbn [fst snd]. apply Ext_more. exact He2.
+      * cbn [fst snd]. apply (PExt_push g2 g2 c1 c1 c3 tr2 t _); [rewrite W3; reflexivity|reflexivity|intros; reflexivity|exact Hx2].
+      * split; [intros u Hu; reflexivity|]. intros E. discriminate.
+  Qed.
+
+  (** what a pop does after its invocation event *)
+  Definition pop_cont (hf lf : nat) : MsPq.prog bool :=
+    Conc.bind (pop bsz hf lf) (fun r =>
+      match r with
+      | Some (Some x) => Emit [EvCli "ret_pop" (1%Z :: zitem x)] (Ret true)
+      | Some None => Emit [EvCli "ret_pop" [0; 0; 0]%Z] (Ret true)
+      | None => Emit [EvCli "stopped" []] (Ret false)
+      end).
+  Lemma run_op_pop hf lf t : run_op cap bsz hf lf t OPop = Emit [EvCli "inv_pop" []] (pop_cont hf lf).
+  Proof. reflexivity. Qed.
+
+  Lemma tpop_cont hf lf t : tsafe t (pop_cont hf lf) (PV Vpop Vstart) Qtop.
+  Proof.
+    unfold pop_cont. apply Conc.safe_bind. eapply Conc.safe_weaken; [|apply (tsafe_pop hf lf t)].
+    intros [[x|]|] l Hl; cbn [optQ3] in Hl; cbn [Conc.safe].
+    + unfold Qtpop in Hl. subst l. intros g2 [[c1 c2] c3] tr2 [[Hi2 He2] Hx2] Hv2. unfold tview, jview, PV in Hv2. cbn [fst snd] in *. inversion Hv2 as [[W1 W2 W3]].
+      pose proof (Inv_ret cap g2 c1 tr2 t _ "ret_pop" 1%Z x true W1 eq_refl eq_refl eq_refl eq_refl (or_intror eq_refl) eq_refl) as H2.
+      assert (Hp2 : pop_invoked tr2 = true) by (apply (proj1 He2 t); rewrite W2; reflexivity).
+      set (c1' := set_held (updv c1 t idle) (hdel t (held c1))).
+      assert (Hv1' : tvs c1' t = idle) by (subst c1'; cbn; rewrite Nat.eqb_refl; reflexivity).
+      assert (Hoth' : forall u, u <> t -> tvs c1' u = tvs c1 u) by (intros u Hu; subst c1'; cbn; destruct (Nat.eqb_spec u t); congruence).
+      exists ((c1', upd2 c2 t idle2), upd3 c3 t idle3). split; [split; [split|]|split].
+      * apply H2; [destruct x; reflexivity|destruct x; discriminate|exact Hi2].
+      * apply Ext_dead. apply pop_invoked_mono. exact Hp2.
+      * cbn [fst snd]. apply (PExt_ret_pop g2 c1 c1' c3 tr2 t _ (Some (prio x)) W3 Hoth' Hv1'); [destruct x; reflexivity|rewrite W1; reflexivity|exact Hx2].
+      * apply tframe2; [exact Hoth'|intros u Hu; apply upd2_other; exact Hu|intros u Hu; apply upd3_other; exact Hu].
+      * unfold tview, jview. cbn [fst snd]. rewrite Hv1', upd2_same, upd3_same. intros _. reflexivity.
+    + unfold Qtpop in Hl. subst l. intros g2 [[c1 c2] c3] tr2 [[Hi2 He2] Hx2] Hv2. unfold tview, jview, PV in Hv2. cbn [fst snd] in *. inversion Hv2 as [[W1 W2 W3]].
+      pose proof (Inv_ret cap g2 c1 tr2 t _ "ret_pop" 0%Z (0%Z, 0%Z) false W1 eq_refl eq_refl eq_refl eq_refl (or_intror eq_refl) eq_refl) as H2.
+      assert (Hp2 : pop_invoked tr2 = true) by (apply (proj1 He2 t); rewrite W2; reflexivity).
+      set (c1' := set_held (updv c1 t idle) (hdel t (held c1))).
+      assert (Hv1' : tvs c1' t = idle) by (subst c1'; cbn; rewrite Nat.eqb_refl; reflexivity).
+      assert (Hoth' : forall u, u <> t -> tvs c1' u = tvs c1 u) by (intros u Hu; subst c1'; cbn; destruct (Nat.eqb_spec u t); congruence).
+      exists ((c1', upd2 c2 t idle2), upd3 c3 t idle3). split; [split; [split|]|split].
+      * apply H2; [reflexivity|discriminate|exact Hi2].
+      * apply Ext_dead. apply pop_invoked_mono. exact Hp2.
+      * cbn [fst snd]. apply (PExt_ret_pop g2 c1 c1' c3 tr2 t _ None W3 Hoth' Hv1'); [reflexivity|rewrite W1; reflexivity|exact Hx2].
+      * apply tframe2; [exact Hoth'|intros u Hu; apply upd2_other; exact Hu|intros u Hu; apply upd3_other; exact Hu].
+      * unfold tview, jview. cbn [fst snd]. rewrite Hv1', upd2_same, upd3_same. intros _. reflexivity.
+    + intros g2 [[c1 c2] c3] tr2 [[Hi2 He2] Hx2] Hv2. exists ((c1, c2), c3). cbn [fst snd] in *.
+      split; [split; [split; [apply Inv_irrelevant; [reflexivity|exact Hi2]|apply Ext_more; exact He2]|]|].
+      * cbn [fst snd]. apply PExt_idle; [reflexivity|reflexivity|exact Hx2].
+      * split; [intros u Hu; reflexivity|]. intros E. discriminate.
+  Qed.
+
+  (** the invocation of a pop, given what the push phase established about the specification state *)
+  Lemma TInv_inv_pop g a1 a2 a3 tr t :
+    TInv g ((a1, a2), a3) tr -> tview ((a1, a2), a3) t = ((idle, idle2), idle3) ->
+    (seen (scan_of tr) = false -> (forall u, pend tr u = false) ->
+       exists (s : list Z) (stt : nat -> status Sp), lp_run lp_init (atrace cap tr) = Some (s, stt) /\ List.length s = count g /\
+         (forall u, stt u = Lin.Idle) /\ Permutation s (prios cap (cellv g))) ->
+    exists a', TInv g a' (tr ++ Conc.tag t [EvCli "inv_pop" []]) /\ Conc.frame tview t ((a1, a2), a3) a' /\ tview a' t = PV Vpop Vstart.
+  Proof.
+    intros [[Hi He] Hx] Hv Hfirst. unfold tview, jview in Hv. cbn [fst snd] in *. inversion Hv as [[V1 V2 V3]].
+    pose proof (Inv_inv_pop cap g a1 tr t idle V1 eq_refl eq_refl Hi) as H1.
+    cbn [set_inop idle hs hand pstore pclear inop pfail] in H1.
+    set (b1 := updv a1 t (mkTv false None None None true false)) in *.
+    set (b2 := upd2 a2 t (mkT2 None true)).
+    assert (Hpi : pop_invoked (tr ++ Conc.tag t [EvCli "inv_pop" []]) = true) by (rewrite pop_invoked_app; cbn; apply orb_true_r).
+    exists ((b1, b2), upd3 a3 t Vstart). split; [split; [split; [exact H1|apply Ext_dead; exact Hpi]|]|split].
+    - cbn [fst snd]. apply (PExt_inv_pop g a1 b1 a2 a3 tr t Hi He V3); [intros u Hu; apply tvs_updv_other; exact Hu| | |exact Hfirst|exact Hx]; unfold b1; rewrite tvs_updv_same; reflexivity.
+    - apply tframe2; [intros u Hu; apply tvs_updv_other; exact Hu|intros u Hu; apply upd2_other; exact Hu|intros u Hu; apply upd3_other; exact Hu].
+    - unfold tview, jview, PV. cbn [fst snd]. unfold b1, b2. rewrite tvs_updv_same, upd2_same, upd3_same. reflexivity.
+  Qed.
+
+  Lemma tbegin g a tr t es : forallb irrelevant es = true -> forallb sn es = true -> forallb quiet1 es = true -> TInv g a tr -> TInv g a (tr ++ Conc.tag t es).
+  Proof.
+    intros H1 H2 H3 [[Hi He] Hx]. split; [split; [apply Inv_irrelevant; assumption|apply Ext_more; exact He]|apply PExt_idle; assumption].
+  Qed.
+
+  Lemma tinit : TInv init ((mkA (fun _ => idle) [], fun _ => idle2), fun _ => idle3) [].
+  Proof.
+    split; [split; [apply Inv_init|]|]; cbn [fst snd].
+    - split; [intros t H; discriminate|]. intros _. split; [|split; [|split]].
+      + intros i t. cbn. split; discriminate.
+      + intros k j x y _ _ Hx. discriminate.
+      + intros t. reflexivity.
+      + intros t [H|[H|H]]; cbn in H; congruence.
+    - unfold PExt. cbn. repeat split; intros; try discriminate; auto.
+  Qed.
 End Pop.
